@@ -282,6 +282,7 @@ func (c *Cron) run() {
 			timer = c.clk.NewTimer(c.entries[0].Next.Sub(now))
 			timerCh = timer.C()
 		}
+		verifPoint("cron.run.armed")
 
 		for {
 			select {
@@ -289,6 +290,7 @@ func (c *Cron) run() {
 				// Set timer to nil so we can exit cleanly
 				timer = nil
 
+				verifPoint("cron.run.woke")
 				now = now.In(c.location)
 				c.logger.Info("wake", "now", now)
 
@@ -342,6 +344,7 @@ func (c *Cron) startJob(j Job) {
 	c.jobWaiter.Add(1)
 	go func() {
 		defer c.jobWaiter.Done()
+		verifPoint("cron.job.start")
 		j.Run()
 	}()
 }
